@@ -44,6 +44,19 @@ def tcp_reply(src, sport, flags, dst=None):
     return eth(MY, GW, 0x0800) + ip4(6, src, dst or SRC, tcp(sport, 40000, flags))
 
 
+def tcp_reply_opts(src, sport, flags, ipopt, tcpopt):
+    """a reply whose IPv4 header carries ipopt bytes of NOP options and whose TCP header carries tcpopt bytes of NOP options"""
+    t = tcp(sport, 40000, flags)
+    t[12] = ((5 + tcpopt // 4) << 4) | (t[12] & 1)
+    t = t + [1] * tcpopt
+    h = [0x40 | (5 + ipopt // 4), 0, 0, 0, 0x12, 0x34, 0x40, 0, 64, 6, 0, 0] + src + SRC + [1] * ipopt
+    tl = len(h) + len(t)
+    h[2], h[3] = tl >> 8, tl & 255
+    c = ck(h)
+    h[10], h[11] = c >> 8, c & 255
+    return eth(MY, GW, 0x0800) + h + t
+
+
 def icmp_reply(src, typ, code, ttl=61, dst=None):
     m = [typ, code, 0, 0, 0x12, 0x34, 0, 1, 1, 2, 3]
     c = ck(m)
@@ -145,7 +158,7 @@ def scenarios(tier):
                "expect": packet_expect("arp", target(net30, 30), [[]], [4], 500, srcip=[10, 9, 0, 1], dstmac=[255] * 6)})
     sc.append({"name": "tcp-from-arp-output", "stdinFrom": "arp-for-cache", "args": ["tcp", "syn", "--json", "-p", "80", "--srcip", "10.9.0.77", "--exit-delay", "400ms", "10.9.3.0/30"],
                "expect": dict(packet_expect("tcpsyn", target(net30, 30, [rng(80, 80)], pairs=[{"ip": a(1), "port": 80}, {"ip": a(2), "port": 80}]), [[rng(80, 80)]], [2], 400),
-                              dstmacs=[{"ip": a(1), "mac": m1}, {"ip": a(2), "mac": m2}])})
+                              dstmacs=[{"ip": a(1), "mac": m1}, {"ip": a(2), "mac": m2}], dstmac=[])})
     # 9d. live mode: complete passes, at least the rescan interval apart, every host printed once however often it answers
     sc.append({"name": "arp-live", "args": ["arp", "--json", "--live", "400ms", "10.9.3.0/30"], "sigintAfter": 14, "maxMs": 12000,
                "inject": [{"bytes": arp_reply(a(1), m1), "afterProbe": 1, "delayMs": 10}, {"bytes": arp_reply(a(1), m1), "afterProbe": 5, "delayMs": 10},
@@ -164,6 +177,42 @@ def scenarios(tier):
                "expect": dict(packet_expect("icmp", target([10, 8, 3, 0], 30), [[]], [4], 500, srcip=vsrc), vpn=True)})
     sc.append({"name": "vpn-udp-own-source", "dev": "tun", "args": ["udp", "--json", "-p", "53", "--exit-delay", "400ms", "10.8.3.2"],
                "expect": dict(packet_expect("udp", target(t(2), 32, [rng(53, 53)]), [[rng(53, 53)]], [1], 400, srcip=[10, 8, 0, 1]), vpn=True)})
+    # 9f. addresses from standard input x port ranges, with an ARP cache file given (the udp command builds its generator twice)
+    pairs = [{"ip": a(d), "port": p} for d in (1, 2, 1) for p in (53, 161)]
+    sc.append({"name": "udp-stdin-arpcache", "args": ["udp", "--json", "-p", "53,161", "-i", "vfw0", "-f", "-"] + COMMON + ["--exit-delay", "400ms"], "files": {"empty": ""},
+               "stdin": '{"ip":"10.9.3.1"}\n{"ip":"10.9.3.2"}\n{"ip":"10.9.3.1"}\n',
+               "expect": packet_expect("udp", target([0, 0, 0, 0], 0, pairs=pairs), [[rng(53, 53), rng(161, 161)]], [6], 400, has_net=False)})
+    # 9g. arp with --srcip: sender protocol address is the given one, in a well-formed 28-byte ARP message
+    sc.append({"name": "arp-srcip", "args": ["arp", "--json", "--srcip", "10.9.0.99", "--exit-delay", "400ms", "10.9.3.0/30"],
+               "inject": [{"bytes": arp_reply(a(2), m2), "afterProbe": 1, "delayMs": 20}, {"bytes": arp_reply(a(2), m1), "afterProbe": 1, "delayMs": 40}],   # two hosts claim .2: two records
+               "expect": packet_expect("arp", target(net30, 30), [[]], [4], 400, srcip=[10, 9, 0, 99], dstmac=[255] * 6)})
+    # 9h. a reply with IPv4 options and TCP options (a long but well-formed header chain)
+    sc.append({"name": "tcp-reply-with-options", "args": ["tcp", "syn", "--json", "-p", "80"] + COMMON + ["--exit-delay", "400ms", "10.9.3.0/31"], "files": {"empty": ""},
+               "inject": [{"bytes": tcp_reply_opts(a(1), 80, 0x12, 40, 40), "afterProbe": 1, "delayMs": 30}, {"bytes": tcp_reply_opts(a(0), 80, 0x12, 8, 20), "afterProbe": 1, "delayMs": 40},
+                          {"bytes": tcp_reply_opts(a(0), 81, 0x12, 40, 40), "afterProbe": 1, "delayMs": 50}],
+               "expect": packet_expect("tcpsyn", target(net30, 31, [rng(80, 80)]), [[rng(80, 80)]], [2], 400)})
+    # 9i. two default routes: the gateway of the scan interface is the fall-back destination MAC, not the gateway of the best route of the host
+    gwa, gwb = [2, 0x5a, 8, 8, 8, 1], [2, 0x5a, 8, 8, 8, 2]
+    cache = "".join('{"ip":"%s","mac":"%s"}\n' % (".".join(map(str, ip)), ":".join("%02x" % x for x in mac))
+                    for ip, mac in (([10, 8, 0, 254], gwa), ([10, 9, 0, 254], gwb), (a(1), m1)))
+    sc.append({"name": "tcp-gateway-of-scan-interface", "args": ["tcp", "syn", "--json", "-p", "80", "-a", "{dir}/cache2", "--srcip", "10.9.0.77", "--exit-delay", "400ms", "10.9.3.0/30"],
+               "files": {"cache2": cache}, "routes": [["default", "via", "10.8.0.254", "dev", "vft0", "metric", "100"], ["default", "via", "10.9.0.254", "dev", "vfw0", "metric", "200"]],
+               "expect": dict(packet_expect("tcpsyn", target(net30, 30, [rng(80, 80)]), [[rng(80, 80)]], [4], 400, dstmac=gwb), dstmacs=[{"ip": a(1), "mac": m1}])})
+    # 9j. application scans over HTTP: every connection goes to a target, whatever the environment or the server says
+    hexp = lambda tgt, maxc, nrec: {"kind": "apphttp", "scan": "elastic", "target": tgt, "maxConns": maxc, "nrecords": nrec}
+    proxy = ["HTTP_PROXY=http://10.200.0.99:3128", "http_proxy=http://10.200.0.99:3128", "HTTPS_PROXY=http://10.200.0.99:3128", "https_proxy=http://10.200.0.99:3128", "NO_PROXY=", "no_proxy="]
+    sc.append({"name": "elastic-proxy-env", "args": ["elastic", "--json", "-p", "9200", "10.200.0.4/31"], "servers": {"9200": "json", "3128": "json"}, "env": proxy,
+               "expect": hexp(target([10, 200, 0, 4], 31, [rng(9200, 9200)]), 2, 2)})
+    sc.append({"name": "docker-proxy-env", "args": ["docker", "--json", "--proto", "http", "-p", "2375", "10.200.0.6"], "servers": {"2375": "json", "3128": "json"}, "env": proxy,
+               "expect": hexp(target([10, 200, 0, 6], 32, [rng(2375, 2375)]), 3, 1)})
+    sc.append({"name": "elastic-redirect", "args": ["elastic", "--json", "-p", "9200", "10.200.0.4"], "servers": {"9200": "redirect:http://10.200.0.77:9201/", "9201": "json"},
+               "expect": hexp(target([10, 200, 0, 4], 32, [rng(9200, 9200)]), 2, 0)})
+    sc.append({"name": "docker-redirect", "args": ["docker", "--json", "--proto", "http", "-p", "2375", "10.200.0.6"], "servers": {"2375": "redirect:http://10.200.0.77:2376/info", "2376": "json"},
+               "expect": hexp(target([10, 200, 0, 6], 32, [rng(2375, 2375)]), 3, 0)})
+    # 9k. Ctrl-C while application probes are in flight against servers that accepted and do not answer
+    for cmd, port in ((["elastic"], "9200"), (["docker", "--proto", "http"], "2375"), (["socks"], "1080")):
+        sc.append({"name": "sigint-inflight-" + cmd[0], "args": cmd + ["--json", "-p", port, "-t", "9s", "10.200.0.8/30"], "servers": {port: "stall"}, "sigintConnMs": 300, "maxMs": 14000,
+                   "expect": {"kind": "sigint", "scan": cmd[0], "target": target([10, 200, 0, 8], 30, [rng(int(port), int(port))])}})
     # 10. targets that are not IPv4 are refused before anything is sent
     for i, t in enumerate(["::1", "::ffff:10.9.3.1/126", "fe80::1/64", "10.9.3.1/33", "10.9.3"]):
         sc.append({"name": "refuse-%d" % i, "args": ["tcp", "syn", "--json", "-p", "80"] + COMMON + ["--exit-delay", "300ms", t], "files": {"empty": ""}, "maxMs": 6000,
@@ -185,6 +234,38 @@ def scenarios(tier):
         s["id"] = i + 1
         s.setdefault("inject", [])
     return sc
+
+
+DEFAULT_OPTS = {"tcpsyn": ("tcp", {"flags": 0x002}), "tcpfin": ("tcp", {"flags": 0x001}), "tcpflags": ("tcp", {"flags": 0x011}),
+                "udp": ("udp", {"ttl": 64, "ipflags": 2, "ipproto": 17, "iplen": 0, "payload": []}),
+                "icmp": ("icmp", {"ttl": 64, "ipflags": 2, "ipproto": 1, "iplen": 0, "type": 8, "code": 0, "payload": [], "defaultPayload": True}),
+                "arp": ("arp", {})}
+
+
+def fill_events(events):
+    """every probe captured on the wire as a Fill event of WireTrace: the request is (expected source MAC / IP, expected destination MAC,
+    the destination address / port the frame itself names), the options are the defaults of the command"""
+    out = []
+    for e in events:
+        x = e["expect"]
+        if x["kind"] != "packet" or x["scan"] not in DEFAULT_OPTS or "--flags" in e["args"] and x["scan"] != "tcpflags":
+            continue
+        kind, opts = DEFAULT_OPTS[x["scan"]]
+        off = 0 if x["vpn"] else 14
+        for k, p in enumerate(e["probes"]):
+            b = p["bytes"]
+            if kind == "arp":
+                dstip, dport = b[38:42], 0
+            else:
+                dstip = b[off + 16:off + 20]
+                dport = 0 if kind == "icmp" or len(b) < off + 24 else b[off + 22] * 256 + b[off + 23]
+            dm = x["dstmac"]
+            for d in x["dstmacs"]:
+                if d["ip"] == dstip:
+                    dm = d["mac"]
+            out.append({"ev": "Fill", "id": len(out) + 1, "kind": kind, "vpn": x["vpn"], "opts": opts, "run": e["name"], "bytes": b,
+                        "req": {"dstmac": dm, "srcmac": x["srcmac"], "srcip": x["srcip"], "dstip": dstip, "dport": dport}})
+    return out
 
 
 def decode_record(scan, line):
@@ -268,6 +349,7 @@ def run_wire(ctx, select=None, label="wire", focus="all"):
         e["conns"] = [{"ip": [int(x) for x in k.split(":")[0].split(".")], "port": int(k.split(":")[1]), "n": v} for k, v in sorted(e["conns"].items())]
     ctx.cov["traces_validated_against_impl"] += len(events)
     ctx.count(len(events), [("wire", e["name"]) for e in events])
+    ctx.wire_events = events
     rejected = []
     rest = events
     while rest:
